@@ -160,7 +160,7 @@ class SessionProp(Prop):
 T_PUB = G.Table([
     (16, G.o_publish), (4, G.o_publish_q12), (8, G.o_puback), (8, G.o_pubrec), (8, G.o_pubcomp),
     (3, G.o_fire), (3, G.o_advance_small), (2, G.o_window), (1, G.o_timeout), (1, G.o_lose_reconnect_persist),
-    (1, G.o_lose_reconnect_clean), (1, G.o_settle),
+    (1, G.o_lose_reconnect_clean), (1, G.o_settle), (2, G.o_arm),
 ])
 
 
@@ -209,7 +209,7 @@ class C05(SessionProp):
 T_PUBWIN = G.Table([
     (20, G.o_publish), (6, G.o_puback), (6, G.o_pubrec), (6, G.o_pubcomp), (4, G.o_ack_good), (4, G.o_window),
     (2, G.o_fire), (1, G.o_advance_small), (2, G.o_lose_reconnect_persist), (1, G.o_lose_reconnect_clean),
-    (1, G.o_reconnect_noack), (1, G.o_connack_ok), (1, G.o_settle), (2, G.o_resume_with_publish),
+    (1, G.o_reconnect_noack), (1, G.o_connack_ok), (1, G.o_settle), (2, G.o_resume_with_publish), (2, G.o_arm),
 ])
 
 
@@ -304,7 +304,7 @@ T_MIX = G.Table([
     (3, G.o_inpub), (2, G.o_inrel), (3, G.o_fire), (3, G.o_advance), (2, G.o_window), (1, G.o_timeout),
     (1, G.o_bandwidth), (2, G.o_lose), (3, G.o_reconnect), (1, G.o_reconnect_noack), (2, G.o_connack),
     (2, G.o_disconnect), (1, G.o_pingresp), (1, G.o_handlers), (1, G.o_settle), (1, G.o_connect),
-    (2, G.o_resume_with_publish),
+    (2, G.o_resume_with_publish), (2, G.o_arm), (1, G.o_segment),
 ])
 
 
@@ -328,7 +328,7 @@ T_SUB = G.Table([
     (10, G.o_subscribe), (8, G.o_unsubscribe), (8, G.o_suback), (8, G.o_unsuback), (3, G.o_ack_good),
     (4, G.o_window), (3, G.o_fire), (2, G.o_advance_small), (3, G.o_lose_reconnect_persist),
     (3, G.o_lose_reconnect_clean), (1, G.o_lose), (1, G.o_reconnect), (1, G.o_settle), (1, G.o_publish_q12),
-    (2, G.o_disconnect), (1, G.o_inpub),
+    (2, G.o_disconnect), (1, G.o_inpub), (2, G.o_arm),
 ])
 
 
@@ -508,6 +508,7 @@ def o_pingrun(ad, a, b, c):
 T_KA = G.Table([
     (10, o_ping_in_time), (4, o_ping_late), (6, G.o_pingresp), (6, G.o_advance), (4, G.o_fire), (3, o_pingrun),
     (3, G.o_publish), (2, G.o_ack_good), (2, G.o_lose), (3, G.o_reconnect), (1, G.o_disconnect), (1, G.o_subscribe),
+    (2, G.o_arm_disconnect), (1, G.o_arm),
 ])
 
 
@@ -1334,7 +1335,7 @@ def o_rude_packet(ad, a, b, c):
 T_PROBE = G.Table([
     (6, G.o_publish), (4, G.o_subscribe), (3, G.o_unsubscribe), (4, G.o_connect), (3, G.o_disconnect), (12, o_rude_packet),
     (4, G.o_ack_good), (3, G.o_connack), (3, G.o_lose), (3, G.o_build), (2, G.o_reconnect), (1, G.o_reconnect_noack),
-    (2, G.o_fire), (2, G.o_advance), (1, G.o_handlers), (1, G.o_window),
+    (2, G.o_fire), (2, G.o_advance), (1, G.o_handlers), (1, G.o_window), (3, G.o_arm),
 ])
 
 
@@ -1760,8 +1761,8 @@ def o_disconnect_then(ad, a, b, c):
 
 T_CLOSE = G.Table([
     (8, G.o_publish), (3, G.o_subscribe), (2, G.o_unsubscribe), (4, G.o_ack_good), (3, G.o_pubrec), (6, o_disconnect_then),
-    (3, G.o_fire), (3, G.o_advance), (2, G.o_lose), (3, G.o_reconnect), (1, G.o_inpub), (1, G.o_inpub_q2), (1, G.o_window),
-    (1, G.o_resume_with_publish),
+    (3, G.o_fire), (3, G.o_advance), (2, G.o_lose), (3, G.o_reconnect), (2, G.o_inpub), (1, G.o_inpub_q2), (1, G.o_window),
+    (1, G.o_resume_with_publish), (4, G.o_arm_disconnect), (2, G.o_arm), (3, G.o_segment), (3, G.o_quit_inside_segment),
 ])
 ALL_TABLES = [T_MIX, T_PUB, T_PUBWIN, T_Q2, T_SUB, T_RETRY, T_KA, T_PERS, T_CLEAN, T_HS, T_INB, T_CLOSE]
 C13.tables = ALL_TABLES
